@@ -11,6 +11,7 @@ pub mod c10;
 pub mod c11;
 pub mod c12;
 pub mod c13;
+pub mod c14;
 pub mod c15;
 pub mod c16;
 
@@ -51,6 +52,9 @@ pub fn run(prop: &str, tier: Tier, budget: f64, out: &mut Outcome) -> Result<(),
     if prop == "C06" {
         return c06::run(tier, budget, out);
     }
+    if prop == "C14" {
+        return c14::run(tier, budget, out);
+    }
     if prop == "C15" {
         return c15::run(tier, budget, out);
     }
@@ -75,6 +79,7 @@ pub fn replay(path: &str) -> i32 {
         Some("struct") => return c12::replay_struct(&doc),
         Some("bytes") => return c06::replay(&doc),
         Some("codec") => return c15::replay(&doc),
+        Some("protocol") => return c14::replay(&doc),
         _ => {}
     }
     let cell_name = doc["cell"].as_str().unwrap();
